@@ -158,6 +158,17 @@ def verify(code=None, filename=DEFAULT_STUDENT_FILENAME, report=MAIN_REPORT,
                      sys.exc_info(), report=report, muted=muted, enhance=enhance)
         report[TOOL_NAME]['success'] = False
         report[TOOL_NAME]['ast'] = ast.parse("")
+    except (ValueError, RecursionError) as e:
+        # The parser refuses some texts without a SyntaxError (a lone surrogate
+        # cannot be encoded, an expression can be nested too deeply); that is
+        # still the student's syntax problem, not a reason to crash the grader.
+        position = getattr(e, 'start', None) if isinstance(e, UnicodeError) else None
+        lineno = 1 if position is None else code.count("\n", 0, position) + 1
+        error = SyntaxError(str(e), (filename, lineno, 1, None))
+        syntax_error(error.lineno, error.filename, code, error.offset, error,
+                     (SyntaxError, error, e.__traceback__), report=report, muted=muted, enhance=enhance)
+        report[TOOL_NAME]['success'] = False
+        report[TOOL_NAME]['ast'] = ast.parse("")
     else:
         report[TOOL_NAME]['success'] = True
     return report[TOOL_NAME]['success']
